@@ -334,7 +334,15 @@ def run(prog, rep):
     sf = caps.methods['_set_fields']
     atxt = ' ; '.join(ast.unparse(a.test) for a in ast.walk(sf) if isinstance(a, ast.Assert))
     rep.instance('P8', f'Capacities._set_fields asserts: {atxt}')
-    if 'isinstance(v, int)' not in atxt:
+    vvars = {l.target.elts[1].id for l in ast.walk(sf) if isinstance(l, ast.For) and isinstance(l.target, ast.Tuple) and len(l.target.elts) == 2 and
+             isinstance(l.target.elts[1], ast.Name) and isinstance(l.iter, ast.Call) and call_name(l.iter) == 'items' and
+             isinstance(l.iter.func.value, ast.Name) and sf.args.kwarg is not None and l.iter.func.value.id == sf.args.kwarg.arg}
+    stored = {c.args[-1].id for c in ast.walk(sf) if isinstance(c, ast.Call) and call_name(c) in ('__setattr__', 'setattr') and c.args and
+              isinstance(c.args[-1], ast.Name)}
+    int_asserted = {x.args[0].id for a in ast.walk(sf) if isinstance(a, ast.Assert) for x in ast.walk(a.test)
+                    if isinstance(x, ast.Call) and isinstance(x.func, ast.Name) and x.func.id == 'isinstance' and len(x.args) == 2 and
+                    isinstance(x.args[0], ast.Name) and ast.unparse(x.args[1]) == 'int'}
+    if not (vvars & stored & int_asserted):
         rep.violation('P8', loc(mod, sf), 'Capacities._set_fields', 'int assertion missing',
                       'the point-wise lemma assumes int fields; _set_fields no longer asserts it')
 
